@@ -16,7 +16,7 @@ computed by scipy/numpy at run time).
 import ast
 import re
 
-from ..engine import AnalysisError, dotted, iter_stmts, norm, kw, const_str, parent_chain
+from ..engine import AnalysisError, dotted, iter_stmts, norm, kw, const_str, parent_chain, walk_expr
 from ..report import Finding
 from .. import api
 
@@ -44,6 +44,48 @@ def run(ctx):
     cu = src.mod(CU)
     gw = cu.func('getinterpweights')
     where = 'src/PseudoNetCDF/%s getinterpweights' % CU
+    # ---- R-ARGORDER: every call of getinterpweights hands its options to the parameters they are meant for
+    ctx.rule('R-ARGORDER', 'calls of getinterpweights: an option passed by position lands on the parameter of the same name (kind, fill_value, extrapolate are not interchangeable)')
+    gparams = [a.arg for a in gw.args.args]
+    syn = {'interptype': 'kind', 'kind': 'kind', 'fill_value': 'fill_value', 'extrapolate': 'extrapolate'}
+    ncall = 0
+    for m_ in src.all_modules():
+        if m_.relpath.startswith('test/'):
+            continue
+        for q_, f_ in sorted(m_.functions.items()):
+            for c in walk_expr(f_):
+                if not (isinstance(c, ast.Call) and (dotted(c.func) or '').split('.')[-1] == 'getinterpweights') or getattr(c, '_fn', f_) is not f_:
+                    continue
+                ncall += 1
+                bad_ = None
+                for i, a in enumerate(c.args):
+                    if i >= 2 and isinstance(a, ast.Name) and a.id in syn and i < len(gparams) and syn[a.id] != gparams[i]:
+                        bad_ = (i, a.id, gparams[i])
+                w_ = 'src/PseudoNetCDF/%s %s' % (m_.relpath, q_)
+                if bad_:
+                    ctx.violation(Finding('R-ARGORDER', m_.relpath, q_, api.stmt_of(c), 'positional argument %d is %s but the parameter at that position is %s (signature: %s): the clip-and-normalise step '
+                                          'is switched by a value meant for another option, so weights outside [0, 1] survive and values leave the range of the source column'
+                                          % (bad_[0] + 1, bad_[1], bad_[2], ', '.join(gparams))))
+                else:
+                    ctx.ok('R-ARGORDER', '%s:%s' % (q_, norm(c)[:30]), w_, 'options by keyword or in signature order')
+    ctx.floor('calls of getinterpweights', ncall, 3)
+    # ---- R-RESTYPE: interpolated variables keep the type of the source variable
+    ctx.rule('R-RESTYPE', 'interpvars creates each result variable with the type of the source variable (no fixed 4-byte type)')
+    iv = src.mod('core/_functions.py').functions.get('interpvars')
+    wiv = 'src/PseudoNetCDF/core/_functions.py interpvars'
+    if iv is None:
+        ctx.undec('R-RESTYPE', 'interpvars', wiv, 'function not found')
+    else:
+        for c in walk_expr(iv):
+            if isinstance(c, ast.Call) and isinstance(c.func, ast.Attribute) and c.func.attr == 'createVariable' and len(c.args) >= 2 and getattr(c, '_fn', iv) is iv:
+                t_ = c.args[1]
+                if isinstance(t_, ast.Constant):
+                    ctx.violation(Finding('R-RESTYPE', 'core/_functions.py', 'interpvars', api.stmt_of(c), 'every interpolated variable is created as %r whatever the source was: float64 variables (an epoch '
+                                          'time axis, a coordinate) are demoted to 4 bytes and reproduced only to about 7 digits' % t_.value))
+                elif 'dtype' in norm(t_) or 'typecode' in norm(t_):
+                    ctx.ok('R-RESTYPE', norm(c)[:40], wiv, 'type from %s' % norm(t_))
+                else:
+                    ctx.undec('R-RESTYPE', norm(c)[:40], wiv, 'type expression %s' % norm(t_))
     # ---- path-wise, temporaries substituted (paths.py): what getinterpweights returns
     #   extrapolate true :  I = interp1d(xs, identity(xs.size), axis=-1, kind='linear', ...)(nxs)
     #   extrapolate false:  C / C.sum(0)  with  C = maximum(0, I)
